@@ -62,6 +62,9 @@ func c06Genesis(r *vg.Rand, scenario int) *c06Chain {
 	if scenario == 2 {
 		n = 4
 	}
+	if scenario == 4 {
+		n = 4 + r.Intn(4)
+	}
 	nkeys := 10
 	if scenario == 3 {
 		n = vg.Scale(25, 90) + r.Intn(vg.Scale(30, 60))
@@ -1264,7 +1267,11 @@ func TestVerifC06Chains(t *testing.T) {
 				}
 				res := c06Validate(st, x.b)
 				tb := c06NewIds()
-				term := vg.App("CValidate", c06State(tb, st), c06Block(tb, x.b, x.cc), c06Oracle(tb, st, x.b), vg.N(res))
+				ctor := "CValidate"
+				if c06F84() {
+					ctor = "CValidate84" // compared with the transcription of the repaired validateBlock
+				}
+				term := vg.App(ctor, c06State(tb, st), c06Block(tb, x.b, x.cc), c06Oracle(tb, st, x.b), vg.N(res))
 				cs.Add(id, p.name, pi != 0, term, fmt.Sprintf("validateBlock(%s, %s) [perturbation %s] -> class %d",
 					c06StateDescr(st), c06BlockDescr(x.b, x.cc), p.name, res))
 			}
